@@ -1,4 +1,5 @@
 import Yaql.Model.Token
+import Yaql.Model.FloatRound
 /-!
 Model of `yaql/language/lexer.py` as ply 3.11 runs it (`ply.lex.Lexer.token`).
 
@@ -208,13 +209,23 @@ def NumMatch.len (m : NumMatch) : Nat :=
   | some d2 => m.int.length + 1 + d2.length
   | none => m.int.length
 
+/-- `float(text)` for a text `a.b` of `\d` characters: the decimal rational `digits(a b) / 10^|b|`, correctly
+rounded to binary64 (`FloatRound.roundRat`: nearest, ties to even - proved in `Props/FloatRound.lean`); a literal beyond
+the double range is `inf` (`float('1' * 400 + '.5')`), never an error. -/
+def literalFloat (cc : CharCfg) (a b : List Char) : UInt64 :=
+  match FloatRound.roundRat (digitsVal cc (a ++ b) : Nat) (10 ^ b.length) with
+  | .ok w => w
+  | .overflow _ => FloatRound.pinfBits
+  | .zeroDen => FloatRound.qnan        -- unreachable, `10^k ≠ 0` (`Props/C16.literalFloat_spec`)
+
 /-- `t_NUMBER`: float iff the text has a dot; `int()` of more than `maxDigits` digits raises
 `ValueError`, which the rule turns into `YaqlLexicalException(text, lexpos)`.  `float()` of such a
-text never raises. A float is kept as its decimal text (ASCII digits). -/
+text never raises. A float token carries its decimal text (ASCII digits) and the double it denotes. -/
 def convNumber (cfg : LexCfg) (m : NumMatch) (pos : Nat) : Matched :=
   match m.frac with
   | some d2 =>
-      .tok ⟨.number, .flt (asciiDigits cfg.chars m.int ++ '.' :: asciiDigits cfg.chars d2), pos⟩ m.len
+      .tok ⟨.number, .flt (asciiDigits cfg.chars m.int ++ '.' :: asciiDigits cfg.chars d2)
+        (literalFloat cfg.chars m.int d2), pos⟩ m.len
   | none =>
       if cfg.maxDigits != 0 && cfg.maxDigits < m.int.length then .err (.lexical m.int pos)
       else .tok ⟨.number, .int (digitsVal cfg.chars m.int), pos⟩ m.len
